@@ -641,6 +641,11 @@ func (gen *Generator) GenerateCallBySymbol(sym *SexpSymbol, args []Sexp, orig Se
 	case "defn":
 		return gen.GenerateDefn(args, orig)
 	case "begin":
+		if len(args) == 0 {
+			// (begin) is an expression like any other form: its value is nil
+			gen.AddInstruction(PushInstr{SexpNull})
+			return nil
+		}
 		return gen.GenerateBegin(args)
 	case "let":
 		return gen.GenerateLet("let", args)
@@ -665,6 +670,10 @@ func (gen *Generator) GenerateCallBySymbol(sym *SexpSymbol, args []Sexp, orig Se
 	case "continue":
 		return gen.GenerateContinue(args)
 	case "newScope":
+		if len(args) == 0 {
+			gen.AddInstruction(PushInstr{SexpNull})
+			return nil
+		}
 		return gen.GenerateNewScope(args)
 	case "package":
 		return gen.GeneratePackage(args)
